@@ -787,10 +787,11 @@ class _ColorConfColorDescr:
             self.modifiers = {**parent.modifiers, **self.modifiers}
         else:
             assert parent is None
-            if self.fg_color in ["-", ""]:
-                self.fg_color = None
-            if self.bg_color in ["-", ""]:
-                self.bg_color = None
+
+        if self.fg_color in ["-", ""]:
+            self.fg_color = None
+        if self.bg_color in ["-", ""]:
+            self.bg_color = None
 
         if no_color:
             self.color_fmt = ColorsConfig._NO_EFFECTS_FMT
